@@ -435,11 +435,11 @@ def grid(quick):
     for (path, ext) in (('local', 'none'), ('fwd', 'repl')):
         probe = base_case(path, 300, ext=EXT_SETS[ext])
         top = ref_size(probe) + (40 if path == 'fwd' else 0) + 3
-        step = (1 if path == 'local' else 3) if not quick else (2 if path == 'local' else 5)
+        step = (1 if path == 'local' else 3) if not quick else (3 if path == 'local' else 7)
         for mtu in range(48, top, step):
             add(dict(probe, mtu=mtu), 'sweep300-' + path)
     # B. payload lengths at the head boundaries, MTUs that put fragment lengths at the boundaries
-    for plen in (0, 1, 2, 22, 23, 24, 25, 254, 255, 256, 257, 600):
+    for plen in ((0, 1, 23, 24, 255, 256, 600) if quick else (0, 1, 2, 22, 23, 24, 25, 254, 255, 256, 257, 600)):
         for crc in (0, 1, 2):
             for path in ('local', 'fwd'):
                 if quick and crc != 2 and (crc + plen + (path == 'fwd')) % 2:
@@ -495,7 +495,7 @@ def grid(quick):
         add(base_case('fwd', plen, mtu=mtu, policy=True, ext=EXT_SETS['repl']), 'policy-fwd')
     # G. random
     rng = chk.rng
-    for _ in range(120 if quick else 4000):
+    for _ in range(100 if quick else 4000):
         path = rng.choice(('local', 'fwd'))
         plen = rng.choice((rng.randrange(0, 40), rng.randrange(0, 700), rng.randrange(200, 300), rng.randrange(0, 3000)))
         ext = []
@@ -679,14 +679,49 @@ def live_gen(row):
     import ast
     import bp.app.fragment as fragmod
     from bp.encoding import PrimaryBlock, CanonicalBlock, Bundle
-    src = open(fragmod.__file__).read()
-    tree = ast.parse(src)
-    func = [sub for node in tree.body if isinstance(node, ast.ClassDef) and node.name == 'Fragment'
-            for sub in node.body if isinstance(sub, ast.FunctionDef) and sub.name == '_create'][0]
-    exprs = {}
 
     class Blk(object):
         pass
+    if not _LIVE:
+        _LIVE.update(live_exprs(fragmod.__file__))
+    exprs = _LIVE
+    codes = _CODES
+
+    def ev(node, scope):
+        code = codes.get(id(node))
+        if code is None:
+            code = codes[id(node)] = compile(ast.fix_missing_locations(ast.Expression(body=node)), '<fragment.py>', 'eval')
+        return eval(code, dict(PrimaryBlock=PrimaryBlock, CanonicalBlock=CanonicalBlock, Bundle=Bundle, len=len), scope)
+
+    (mtu, orig, ps, pse, nps, off, bflags, kflags, knum) = row
+    blk = Blk()
+    blk.block_flags = CanonicalBlock.Flag(kflags)
+    blk.block_num = knum
+    base = dict(orig_size=orig, payload_size=ps, pyld_size_enc=pse, payload_data=range(ps), bundle_flags=PrimaryBlock.Flag(bflags),
+                frag_offset=off, blk=blk)
+    should_t = bool(ev(exprs['should_fragment'], dict(base, mtu=mtu)))
+    should_f = bool(ev(exprs['should_fragment'], dict(base, mtu=None)))
+    np0 = ev(exprs['non_pyld_size'], dict(base, mtu=mtu))
+    big = bool(ev(exprs['raise_tests'][0], dict(base, mtu=mtu, non_pyld_size=np0)))
+    fsz = ev(exprs['frag_size'], dict(base, mtu=mtu, non_pyld_size=nps))
+    bad = bool(ev(exprs['raise_tests'][1], dict(base, mtu=mtu, frag_size=fsz)))
+    scope = dict(base, mtu=mtu, frag_size=fsz, non_pyld_size=nps)
+    return ([should_t, should_f, big, bad, bool(ev(exprs['loop_test'], scope)), bool(ev(exprs['keep'], scope)),
+             bool(ev(exprs['is_pay'], scope)), np0 >= 0, fsz >= 0],
+            [abs(np0), abs(fsz), abs(ev(exprs['lo'], scope)), abs(ev(exprs['hi'], scope)), abs(ev(exprs['step'], scope))])
+
+
+_LIVE = {}
+_CODES = {}
+
+
+def live_exprs(path):
+    ''' The expressions of Fragment._create, located by role in the live source file. '''
+    import ast
+    tree = ast.parse(open(path).read())
+    func = [sub for node in tree.body if isinstance(node, ast.ClassDef) and node.name == 'Fragment'
+            for sub in node.body if isinstance(sub, ast.FunctionDef) and sub.name == '_create'][0]
+    exprs = {}
     for node in ast.walk(func):
         if isinstance(node, ast.Assign) and len(node.targets) == 1 and isinstance(node.targets[0], ast.Name):
             name = node.targets[0].id
@@ -706,26 +741,7 @@ def live_gen(row):
         if isinstance(node, ast.AugAssign) and isinstance(node.target, ast.Name) and node.target.id == 'frag_offset':
             exprs['step'] = ast.BinOp(left=ast.Name(id='frag_offset', ctx=ast.Load()), op=node.op, right=node.value)
 
-    def ev(node, scope):
-        code = compile(ast.fix_missing_locations(ast.Expression(body=node)), '<fragment.py>', 'eval')
-        return eval(code, dict(PrimaryBlock=PrimaryBlock, CanonicalBlock=CanonicalBlock, Bundle=Bundle, len=len), scope)
-
-    (mtu, orig, ps, pse, nps, off, bflags, kflags, knum) = row
-    blk = Blk()
-    blk.block_flags = CanonicalBlock.Flag(kflags)
-    blk.block_num = knum
-    base = dict(orig_size=orig, payload_size=ps, pyld_size_enc=pse, payload_data=range(ps), bundle_flags=PrimaryBlock.Flag(bflags),
-                frag_offset=off, blk=blk)
-    should_t = bool(ev(exprs['should_fragment'], dict(base, mtu=mtu)))
-    should_f = bool(ev(exprs['should_fragment'], dict(base, mtu=None)))
-    np0 = ev(exprs['non_pyld_size'], dict(base, mtu=mtu))
-    big = bool(ev(exprs['raise_tests'][0], dict(base, mtu=mtu, non_pyld_size=np0)))
-    fsz = ev(exprs['frag_size'], dict(base, mtu=mtu, non_pyld_size=nps))
-    bad = bool(ev(exprs['raise_tests'][1], dict(base, mtu=mtu, frag_size=fsz)))
-    scope = dict(base, mtu=mtu, frag_size=fsz, non_pyld_size=nps)
-    return ([should_t, should_f, big, bad, bool(ev(exprs['loop_test'], scope)), bool(ev(exprs['keep'], scope)),
-             bool(ev(exprs['is_pay'], scope)), np0 >= 0, fsz >= 0],
-            [abs(np0), abs(fsz), abs(ev(exprs['lo'], scope)), abs(ev(exprs['hi'], scope)), abs(ev(exprs['step'], scope))])
+    return exprs
 
 
 def check_gen():
@@ -775,7 +791,7 @@ ASSUMPTIONS = [
 
 RULE = ('boundary-directed grid + seeded random cases; each case = (origin local|forwarded, payload length, MTU, CRC type, extension blocks, flags, '
         'policy).  Grid: every MTU from below the feasibility limit to above the bundle size for a 300-octet payload; payload lengths '
-        '0,1,2,22..25,254..257,600 x MTUs placing fragment lengths at 23/24 and 255/256; payloads 65535..65537, 70000, 140000 with fragment lengths at '
+        '0,1,23,24,255,256,600 (thorough: also 2,22,25,254,257) x MTUs placing fragment lengths at 23/24 and 255/256; payloads 65535..65537, 70000, 140000 with fragment lengths at '
         '65535/65536/65537; extension sets none/plain/replicated/mixed/hop-count+age x CRC 0/1/2; do-not-fragment, already-a-fragment, fits, no MTU, '
         'infeasible MTUs; policy on.  Every case is run twice through the real agent (route without MTU = reference, route with the MTU), through '
         'Model/BpFrag.run_case (vm_compute; compared by length, 64-bit digest and the first 96 octets of every transmitted bundle) and through '
